@@ -64,7 +64,13 @@ fn gen(r: &mut Rng, cfg: &RunCfg) -> Case {
         o.si = r.pick(GAPS).to_string();
     }
     let cols = r.range(1, 16);
-    let total = if r.chance(1, 8) { r.range(0, 4096) } else { r.range(0, 80) };
+    let total = if text.len() <= 64 && r.chance(1, 6) {
+        *r.pick(&[65534usize, 65535, 65536, 65537, 70000, 131072])
+    } else if r.chance(1, 8) {
+        r.range(0, 4096)
+    } else {
+        r.range(0, 80)
+    };
     let limit = *r.pick(&[0usize, 1, 2, 3, 5, 8, 20, usize::MAX]);
     Case::new("text")
         .text(text)
@@ -114,7 +120,7 @@ fn check_text(case: &Case, obs: &mut Obs) -> Verdict {
     mark("display_width");
     let _ = textwrap::core::display_width(text);
     n += 1;
-    if cols >= 1 && total <= 4096 && cols <= 16 {
+    if cols >= 1 && cols <= 16 && (total <= 4096 || (total <= 200_000 && text.len() <= 64)) {
         mark("wrap_columns");
         let mut oc = o.clone();
         oc.width = total;
@@ -315,7 +321,7 @@ fn extra(cfg: &RunCfg, w: &mut Worker) {
 pub fn prop() -> Prop {
     Prop {
         id: "C04",
-        rule: "text call group (3/4): hostile text with dirty escape fragments over-represented, boundary widths incl. 0 and usize::MAX, all built-in option combinations, penalties from {0, 1, usize::MAX, usize::MAX-1, 2^53, 2^53+1, random}: wrap, fill, fill_inplace, unfill, refill, indent, dedent, display_width, wrap_columns (1..=16 columns, total width <= 4096), find_words, split_points, split_words, break_words, break_apart, wrap_first_fit, wrap_optimal_fit, WrapAlgorithm::wrap are each called and must return normally (optimal-fit: Ok). fragment group (1/4): usize-valued fragments (Ok required) and finite / non-finite f64 fragments (no panic; Err allowed). + exhaustive small hostile strings and long stress texts. A panic anywhere in the library is a violation. non-trivial = non-empty input; distinct = (group, option shape, dirty, line bucket, width bucket, huge width, columns, non-ASCII | usize-valued, non-finite, Err)",
+        rule: "text call group (3/4): hostile text with dirty escape fragments over-represented, boundary widths incl. 0 and usize::MAX, all built-in option combinations, penalties from {0, 1, usize::MAX, usize::MAX-1, 2^53, 2^53+1, random}: wrap, fill, fill_inplace, unfill, refill, indent, dedent, display_width, wrap_columns (1..=16 columns, total width <= 4096, or up to 131072 for texts of <= 64 bytes), find_words, split_points, split_words, break_words, break_apart, wrap_first_fit, wrap_optimal_fit, WrapAlgorithm::wrap are each called and must return normally (optimal-fit: Ok). fragment group (1/4): usize-valued fragments (Ok required) and finite / non-finite f64 fragments (no panic; Err allowed). + exhaustive small hostile strings and long stress texts. A panic anywhere in the library is a violation. non-trivial = non-empty input; distinct = (group, option shape, dirty, line bucket, width bucket, huge width, columns, non-ASCII | usize-valued, non-finite, Err)",
         gen,
         check,
         panic_is_violation: true,
